@@ -63,6 +63,7 @@ type Exec struct {
 	unfoldLevels  int
 	tmp           map[int]string
 	exactDec      bool
+	pureCache     map[string]*Val
 }
 
 func (x *Exec) fail(format string, a ...any) {
@@ -296,9 +297,6 @@ func (x *Exec) assumeInv(s *State, T types.Type, term string) {
 	}
 	if a, ok := T.Underlying().(*types.Array); ok && srt == "Bytes" {
 		s.assume(eq(sx("blen", term), fmt.Sprint(a.Len())))
-	} else if srt == "Bytes" {
-		// a byte string held by the program fits in memory (A-mem); the Bytes theory itself has no length bound
-		s.assume(sx("<", sx("blen", term), pow2(63)))
 	}
 }
 
@@ -498,6 +496,7 @@ func (x *Exec) updTerm(s *State, T types.Type, t string, path []Step, v string) 
 }
 
 func (x *Exec) store(s *State, p *Ptr, v *Val) {
+	s.ver++
 	m := x.objMeta[p.Obj]
 	if m.Name == "tmp" && len(p.Path) > 0 {
 		x.c.note("store through a copied pointer (aliasing not tracked)")
@@ -1035,6 +1034,7 @@ func (x *Exec) doMapUpdate(s *State, env map[ssa.Value]*Val, in *ssa.MapUpdate) 
 }
 
 func (x *Exec) storeTerm(s *State, p *Ptr, term string) {
+	s.ver++
 	x.recordWrite(p)
 	m := x.objMeta[p.Obj]
 	old := s.objs[p.Obj]
